@@ -1,4 +1,5 @@
 import FV
+import FV.Spec.Content
 /-! Parsing of the trace protocol: hex, descriptors, initialisers. -/
 open FV
 namespace Drv
@@ -132,13 +133,4 @@ def kindStr : EKind → String
   | .invalidData => "invalidData" | .other => "other"
 def errStr (e : Err) : String := s!"{kindStr e.kind}@{e.pos}"
 
-/-- remove capacities from a rendered walk: digits after `V` or `S` -/
-def stripCaps (s : String) : String :=
-  let rec go : List Char → Bool → List Char
-    | [], _ => []
-    | c :: r, skipping =>
-      if skipping && c.isDigit then go r true
-      else if c == 'V' || c == 'S' then c :: go r true
-      else c :: go r false
-  String.ofList (go s.toList false)
 end Drv
